@@ -192,6 +192,8 @@ def run(ctx):
     ctx.rule("R6", "the limit is lifted only by proof of reachability: in Path::validate the calls that mark the path validated and "
                    "grant() the anti-amplification budget run only when the received PATH_RESPONSE data was compared equal to the "
                    "outstanding PATH_CHALLENGE")
+    ctx.rule("R7", "each packet is bounded by the remaining credit as an amount: the length Constraints::constrain gives the assembler is "
+                   "computed from credit_limit (min with the buffer and the send quota), not merely gated by credit_limit != 0")
     ctx.rule("R5", "every committed packet is charged against the credit: Constraints::commit subtracts len from credit_limit on every path")
     cm = ctx.anchor("R5", "qconnection::path::util::Constraints::commit")
     if cm:
@@ -236,3 +238,23 @@ def run(ctx):
                    "comparisons of the PATH_RESPONSE data with the PATH_CHALLENGE data: %d; this call runs only when one of them held: %s — "
                    "otherwise any PATH_RESPONSE (a blind guess from a spoofed address, a stale one) validates the path and lifts the 3x "
                    "limit towards an address that never proved it receives our packets" % (len(eqs), ok))
+
+    # ---------------------------------------------------------------- R7
+    cb_ = ctx.anchor("R7", "qconnection::path::util::Constraints::constrain")
+    if cb_:
+        # the end of the returned sub-slice (`&mut buf[..len]`): its value must derive from credit_limit through min()
+        flows = False
+        idxs = [(i, t) for i, t in cb_.calls() if re.search(r"ops::index::IndexMut<.*> for \[T\]>::index_mut$|IndexMut::index_mut$", callee(t))]
+        for (i, t) in idxs:
+            if len(t["args"]) < 2:
+                continue
+            for pl in deep_places(cb_, t["args"][1], 8):
+                if place_has_field(pl, "Constraints", "credit_limit"):
+                    flows = True
+        mins = [1 for i, t in cb_.calls() if re.search(r"Ord::min$|cmp::min$", callee(t)) and
+                any(place_has_field(pl, "Constraints", "credit_limit") for a in t["args"] for pl in deep_places(cb_, a, 4))]
+        ctx.floor("R7", "slice-bounding operations in constrain", len(idxs), 1)
+        ctx.ob("R7", "%s|the granted length is min(.., credit_limit, ..)" % cb_.short, flows and bool(mins), cb_.where(),
+               "credit_limit flows into the slice bound: %s; through a min(): %s — as a yes/no gate a left-over credit of a few bytes admits "
+               "a full-size datagram, and the overshoot is forgiven when on_sent saturates the credit at zero: more than 3x is sent"
+               % (flows, bool(mins)))
